@@ -1,12 +1,16 @@
 package faults
 
 import (
+	"bytes"
+	"context"
 	"fmt"
+	"github.com/godaddy/asherah/go/appencryption"
 	"math/rand"
 	"strings"
 	"testing"
 	"testing/synctest"
 	"time"
+	"verif/harness/world"
 
 	"verif/harness/creators"
 	"verif/harness/ev"
@@ -196,6 +200,7 @@ func TestC02(t *testing.T) {
 		r.Count(fmt.Sprintf("passes_over_aws_kms_v%d", v), 1)
 	}
 	execAWSKMS = 0
+	firstCallOutage(t, r)
 	// "returned 'already exists'": key inserts of several cold processes that really overlap inside the metastore
 	creators.Run(r, "C02", ev.Pick(30, 600), journal)
 	r.Finish(t)
@@ -248,4 +253,95 @@ func TestC10(t *testing.T) {
 	secretImpl, execMemcall = "memguard", false
 	awsPlaintexts(t, r)
 	r.Finish(t)
+}
+
+// firstCallOutage: the back end itself (database connection, DynamoDB service) is unavailable when a process makes
+// its very first metastore calls, underneath the real plug-ins: operations may fail while the outage lasts; "once the
+// faults stop the next operation succeeds", and what it returns is decryptable by a fresh process.
+func firstCallOutage(t *testing.T, r *ev.Run) {
+	for _, be := range []string{"sql", "dynamodb-v1", "dynamodb-v2"} {
+		for _, firstOp := range []string{"enc", "dec"} {
+			for _, cfgName := range []string{"simple", "nocache"} {
+				name := fmt.Sprintf("first-call-outage/%s/%s/%s", be, firstOp, cfgName)
+				journal("C02 " + name)
+				p := inBubble(t, func() {
+					w := world.NewOn("memguard", be)
+					defer w.Close()
+					time.Sleep(21 * time.Second)
+					ctx := context.Background()
+					outage := func(on bool) {
+						n := 0
+						if on {
+							n = 1000
+						}
+						if db := w.SQL(); db != nil {
+							db.SetFailPrepares(n)
+							db.SetFailReads(n)
+							db.SetFailWrites(n)
+						}
+						if tb := w.DDB(); tb != nil {
+							tb.SetFail(n, n)
+						}
+					}
+					var prior *appencryption.DataRowRecord
+					priorPl := []byte("written before the restart")
+					if firstOp == "dec" {
+						// another process wrote a record earlier; the process under test starts with the outage
+						pf := w.Factory(cfgOf("simple"), "svc", "prod")
+						ps, _ := pf.GetSession("P")
+						prior, _ = ps.Encrypt(ctx, priorPl)
+						ps.Close()
+						pf.Close()
+						if prior == nil {
+							r.Violation("encrypt-failed-without-fault", name+": producer encrypt failed", nil)
+							return
+						}
+					}
+					f := w.Factory(cfgOf(cfgName), "svc", "prod")
+					s, err := f.GetSession("P")
+					if err != nil {
+						r.Violation("getsession-failed", name+": "+err.Error(), nil)
+						return
+					}
+					outage(true)
+					for i := 0; i < 2; i++ {
+						if firstOp == "enc" {
+							if d, err := s.Encrypt(ctx, []byte("during the outage")); err == nil {
+								r.Violation("record-returned-during-outage", fmt.Sprintf("%s: the back end rejects every call and Encrypt returned a record naming (%s,%d)", name, d.Key.ParentKeyMeta.ID, d.Key.ParentKeyMeta.Created), nil)
+							}
+						} else if _, err := s.Decrypt(ctx, *world.CopyDRR(prior)); err == nil {
+							r.Violation("decrypt-succeeded-without-backend", name+": decrypt of a record whose keys were never loaded succeeded while the back end rejects every call", nil)
+						}
+					}
+					outage(false)
+					r.Eval(1)
+					r.Count("first_call_outage_cases", 1)
+					r.Distinct(name)
+					pl := []byte("after the outage")
+					d, err := s.Encrypt(ctx, pl)
+					if err != nil {
+						r.Violation("next-encrypt-fails-after-faults-stop", fmt.Sprintf("%s: the outage is over and Encrypt on the same session still fails: %v", name, err), nil)
+					} else {
+						ff := w.Factory(cfgOf("nocache"), "svc", "prod")
+						fs, _ := ff.GetSession("P")
+						if out, err := fs.Decrypt(ctx, *world.CopyDRR(d)); err != nil || !bytes.Equal(out, pl) {
+							r.Violation("fresh-process-cannot-decrypt", fmt.Sprintf("%s: the record written after the outage does not decrypt in a fresh process: %v", name, err), nil)
+						}
+						fs.Close()
+						ff.Close()
+					}
+					if prior != nil {
+						if out, err := s.Decrypt(ctx, *world.CopyDRR(prior)); err != nil || !bytes.Equal(out, priorPl) {
+							r.Violation("next-decrypt-fails-after-faults-stop", fmt.Sprintf("%s: the outage is over and the earlier record still does not decrypt: %v", name, err), nil)
+						}
+					}
+					s.Close()
+					f.Close()
+				})
+				if p != nil {
+					r.Violation("panic:first-call-outage", fmt.Sprintf("%s: %v", name, p), nil)
+				}
+			}
+		}
+	}
 }
